@@ -205,7 +205,7 @@ def main():
     else:
         import multiprocessing
         with multiprocessing.get_context('fork').Pool(workers) as pool:
-            for r in pool.imap(answer, lines, chunksize=4):
+            for r in pool.imap(answer, lines, chunksize=1):
                 sys.stdout.write(r + '\n')
     sys.stdout.flush()
 
